@@ -468,6 +468,86 @@ EXTRA_TEXT = {
            'read with the id attribute configured on the tag '
            '(inter-procedural origin of the attribute name).',
 }
+# clauses added from seed waves 6 and 7
+EXTRA_TEXT2 = {
+    'C01': 'Outside the constructors the compiled block lists of a tag are '
+           'only handed to render_blocks or passed on (never indexed, '
+           'measured, repeated or returned).',
+    'C02': 'The mapping dtml-in lays over the namespace answers a key '
+           'without a dash only when a non-empty prefix is configured and '
+           'the key starts with it (string-emptiness abstract '
+           'interpretation of __init__ and __getitem__); values of the '
+           'template-variable layer are never handed to the construction-'
+           'time layers on initialisation / restore.',
+    'C03': 'The option dictionary is not edited for a modifier option '
+           'after the modifier list was derived from it; the tests that '
+           'skip a requested quoting look at nothing but the taint mark.',
+    'C04': 'No decorator whose wrapper can return anything but the wrapped '
+           'call\'s result stands between the dispatch tables and a '
+           'modifier / special format (value-keyed memoisation conflates '
+           'tainted and plain strings).',
+    'C06': 'A continuation table is a tuple of names (not a string, on '
+           'which the readers\' membership test is a substring test); in a '
+           'mutually recursive group of the compiler each function has a '
+           'single call site leading back into the group (no double '
+           'descent per nesting level).',
+    'C07': 'One command table, updated in place and never rebound on a '
+           'class or instance; the EPFS tag language includes name + any '
+           'white space + arguments + suffix (lower bound by regex '
+           'inclusion).',
+    'C08': '_push adds exactly one entry, the object it is given, on every '
+           'path; with-statements over contextlib.contextmanager '
+           'generators are judged by what the generator guarantees (clean-'
+           'up after an unprotected yield is skipped on exceptions).',
+    'C09': 'The "name not defined" protocol agrees on both sides: the '
+           'interpreter treats a KeyError as undefined only on paths that '
+           'established args[0] == name, the namespace raises exactly '
+           'KeyError(key); the call-signature marker isDocTemp is read '
+           'from the acquisition-unwrapped value.',
+    'C10': 'The variable object answers only its own names (see C02); every '
+           'length-2 test on an element is conjoined with a tuple type '
+           'test; "no such name" for an element attribute depends on the '
+           'failure of the read, never on the value read.',
+    'C11': 'The batch lists memoised in the variable cache are re-iterable '
+           '(no one-shot iterator); next-sequence / previous-sequence are '
+           'in the initial table or assigned on every path before the body '
+           'is rendered.',
+    'C12': 'The wrapped iterator is not handed out (return / call) except '
+           'as a bulk pull stored in the same statement; the size the '
+           'window computation returns is the size parameter, re-assigned '
+           'only under size < 1.',
+    'C13': 'What the constructor derived from the literal sort= is read by '
+           'the sort routine only as fall-back for a missing spec argument '
+           '(sort_expr specs are interpreted themselves).',
+    'C14': 'The handler table and blocks of the try / raise / return tags '
+           'are re-iterable; error_type and the handler search read the '
+           'same class-name attribute.',
+    'C15': 'The C-style format of a %(name)fmt tag reaches the var tag '
+           'untransformed; in every fmt dispatch chain the method test '
+           'precedes the special-format test; option values handed to a '
+           'helper are not consulted by truthiness there either; options '
+           'are not edited after the modifier list was derived.',
+    'C16': 'A sort statement dominates every median store; where a '
+           'statistic is selected by alias prefix, no alias is a prefix of '
+           'a later one.',
+    'C17': 'No one-shot iterator is stored in an attribute or container '
+           'entry; mutable default arguments are neither mutated nor '
+           'handed out; render-time stores to attributes of imported '
+           'modules / global names are enumerated with the other shared '
+           'writes.',
+    'C18': 'No attribute of a template or compiled tag holds a one-shot '
+           'iterator; process-wide module state written during rendering '
+           'is a race.',
+    'C19': 'The encoding handed to a tag constructor is the template\'s own '
+           '(section.encoding counts only if every SubTemplate override '
+           'threads it); rendered pieces are not %-formatted / str.format-'
+           'ed / f-stringed; a decoder re-assigns its encoding parameter '
+           'only as default and decodes with no re-assigned module global.',
+    'C20': 'No state (or part of one) is a mutable default argument; no '
+           'collection handed down the tree recursion and filled on the '
+           'way decides by id membership (ids are unique among siblings '
+           'only).',
+}
 EXTRA_TECH = {
     'C01': 'prefix-knowledge abstract interpretation of the SGML scanner',
     'C12': 'zone (difference-bound) abstract interpretation of opt() with '
@@ -496,6 +576,11 @@ def main():
             i = t.find('Not decided')
             c['text'] = (t + ' ' + EXTRA_TEXT[pid]) if i < 0 else (
                 t[:i] + EXTRA_TEXT[pid] + ' ' + t[i:])
+        if pid in EXTRA_TEXT2:
+            t = c['text']
+            i = t.find('Not decided')
+            c['text'] = (t + ' ' + EXTRA_TEXT2[pid]) if i < 0 else (
+                t[:i] + EXTRA_TEXT2[pid] + ' ' + t[i:])
         if pid in EXTRA_TECH:
             c['technique'] += '; ' + EXTRA_TECH[pid]
         checks.append({
